@@ -11,7 +11,7 @@ CORRESPONDENCES = {
     # K-spec: spec_util::from_yaml_str on generated YAML text vs build
     "spec": {"sub": "spec", "cases": {"quick": 30000, "thorough": 300000}, "shards": {"quick": 16, "thorough": 16}},
     # K-proc: the real cambrian binary with scripted objprog children (release files, /proc scan) vs L7/L8/L9
-    "proc": {"sub": "proc", "cases": {"quick": 128, "thorough": 1600}, "shards": {"quick": 16, "thorough": 16}},
+    "proc": {"sub": "proc", "cases": {"quick": 192, "thorough": 1600}, "shards": {"quick": 16, "thorough": 16}},
     # K-sel / K-live / K-mix / benchmark battery (C17): select_ref frequencies vs selPmf, mutation liveness, mixed offspring, known-optimum runs
     "dir": {"sub": "dir", "cases": {"quick": 336, "thorough": 4000}, "shards": {"quick": 16, "thorough": 16}},
     # twin runs (C09): the same scripted run twice in one process and once in a fresh process
